@@ -1087,6 +1087,14 @@ fn header_views(b: &[u8], ctx: &mut Ctx, out: &mut Vec<PairDiff>) {
     }
 }
 
+/// the C01 case generator with the grammar's rare big payloads switched on
+fn gen_case_big(tape: &[u8]) -> crate::props::c01::Case {
+    ALLOW_BIG.with(|b| b.set(true));
+    let c = crate::props::c01::gen_case(tape);
+    ALLOW_BIG.with(|b| b.set(false));
+    c
+}
+
 pub fn check(start: Start, b: &[u8], ranges: &[usize], ctx: &mut Ctx) -> Result<(), Failure> {
     let mut diffs: Vec<PairDiff> = vec![];
     let input = || {
@@ -1157,7 +1165,7 @@ impl Property for C06 {
         tier.pick(1_000_000, 16_000_000)
     }
     fn run_tape(&self, tape: &[u8], ctx: &mut Ctx) -> Result<(), Failure> {
-        let c = crate::props::c01::gen_case(tape);
+        let c = gen_case_big(tape);
         ctx.class(&format!("start:{}", c.start.kind()));
         ctx.class(&format!("kind:{}", c.kind));
         check(c.start, &c.bytes, &c.ranges, ctx)
